@@ -17,24 +17,25 @@ import (
 
 // Job is what a worker process is asked to do.
 type Job struct {
-	ID       int        `json:"id"`
-	Harness  string     `json:"harness"` // C15 | C10conc | C05mon
-	C15      *C15Cfg    `json:"c15,omitempty"`
-	C10      *C10Cfg    `json:"c10,omitempty"`
-	C05      *C05Cfg    `json:"c05,omitempty"`
-	C18      *C18Cfg    `json:"c18,omitempty"`
-	C03      *C03Cfg    `json:"c03,omitempty"`
-	C14      *C14Cfg    `json:"c14,omitempty"`
-	C09      *C09Cfg    `json:"c09,omitempty"`
-	C01      *C01Cfg    `json:"c01,omitempty"`
-	C14Ctl   *C14CtlCfg `json:"c14ctl,omitempty"`
-	CodecSig string     `json:"codec_sig,omitempty"` // harness "codec": the violation signature to re-check
-	Mode     string     `json:"mode"`                // explore | split | replay
-	B        Bounds     `json:"bounds"`
-	Prefix   []int      `json:"prefix,omitempty"`
-	Choices  []int      `json:"choices,omitempty"` // replay: the exact answers at every choice point
-	Trace    bool       `json:"trace,omitempty"`
-	Deadline int64      `json:"deadline_unix_ms,omitempty"` // stop exploring (answer complete:false) after this instant
+	ID       int         `json:"id"`
+	Harness  string      `json:"harness"` // C15 | C10conc | C05mon
+	C15      *C15Cfg     `json:"c15,omitempty"`
+	C10      *C10Cfg     `json:"c10,omitempty"`
+	C05      *C05Cfg     `json:"c05,omitempty"`
+	C05Full  *C05FullCfg `json:"c05full,omitempty"`
+	C18      *C18Cfg     `json:"c18,omitempty"`
+	C03      *C03Cfg     `json:"c03,omitempty"`
+	C14      *C14Cfg     `json:"c14,omitempty"`
+	C09      *C09Cfg     `json:"c09,omitempty"`
+	C01      *C01Cfg     `json:"c01,omitempty"`
+	C14Ctl   *C14CtlCfg  `json:"c14ctl,omitempty"`
+	CodecSig string      `json:"codec_sig,omitempty"` // harness "codec": the violation signature to re-check
+	Mode     string      `json:"mode"`                // explore | split | replay
+	B        Bounds      `json:"bounds"`
+	Prefix   []int       `json:"prefix,omitempty"`
+	Choices  []int       `json:"choices,omitempty"` // replay: the exact answers at every choice point
+	Trace    bool        `json:"trace,omitempty"`
+	Deadline int64       `json:"deadline_unix_ms,omitempty"` // stop exploring (answer complete:false) after this instant
 }
 
 type FoundViol struct {
@@ -108,7 +109,9 @@ func runOnce(job *Job, ch vs.Chooser, trace bool) (*vs.Result, *Outcome) {
 		out, res = runC10(job.C10, cc, trace)
 	case "C05mon":
 		out, res = runC05(job.C05, cc, trace)
-	case "C18atom", "C13conc", "C04conc", "C02conc", "C10prom", "C05conc":
+	case "C05full":
+		out, res = runC05Full(job.C05Full, cc, trace)
+	case "C18atom", "C13conc", "C04conc", "C02conc", "C10prom", "C05conc", "C16grow":
 		out, res = runC18(job.C18, cc, trace)
 	case "C03conc":
 		out, res = c03Run(job.C03, cc, trace)
